@@ -137,6 +137,14 @@ extern "C" int __wrap_kill(pid_t pid, int sig) {
 static void fillPattern(void* p, size_t n, int slot) { unsigned char* c = (unsigned char*)p; for (size_t i = 0; i < n; i++) c[i] = (unsigned char)(0x41 + (slot + (int)i) % 26); }
 
 static uint64_t g_fired[K_COUNT];
+static void throwOrAbort(bool doThrow) {
+#if CPPUTEST_HAVE_EXCEPTIONS
+    if (doThrow) throw std::runtime_error("thrown by a plugin action");
+#else
+    (void)doThrow;
+#endif
+    abort();
+}
 // every C-language check function, failing. They leave the test by longjmp: a frame that no C++ exception may cross (noexcept, like
 // compiled C code without unwind tables) must not be a problem for any of them.
 static void failCStyle(const Op& o, const char* text, const char* file, size_t line) noexcept {
@@ -328,7 +336,7 @@ public:
                 result.addFailure(TestFailure(&test, "plugin.cpp", (size_t)o.d, o.s2.c_str()));
             } else if (o.kind == K_DIE_SIGNAL || o.kind == K_DIE_EXIT || o.kind == K_DIE_ABORT) {     // the child dies inside a plugin action (separate-process mode)
                 pushEv(E_OP, t, phase, (int)i, pidx);
-                if (PS.inChild) { if (o.kind == K_DIE_SIGNAL) { fflush(0); signal((int)o.a, SIG_DFL); sigset_t one; sigemptyset(&one); sigaddset(&one, (int)o.a); sigprocmask(SIG_UNBLOCK, &one, 0); raise((int)o.a); } else if (o.kind == K_DIE_EXIT) _exit((int)o.a); else { signal(SIGABRT, SIG_DFL); abort(); } }
+                if (PS.inChild) { if (o.kind == K_DIE_SIGNAL) { fflush(0); signal((int)o.a, SIG_DFL); sigset_t one; sigemptyset(&one); sigaddset(&one, (int)o.a); sigprocmask(SIG_UNBLOCK, &one, 0); raise((int)o.a); } else if (o.kind == K_DIE_EXIT) _exit((int)o.a); else { signal(SIGABRT, SIG_DFL); throwOrAbort(o.b == 1); } }
             } else pushEv(E_OP, t, phase, (int)i, pidx);
         }
     }
